@@ -85,6 +85,16 @@ func (w *world) runCase(tw *fx.TraceWriter, k int, beh []fx.Ev) error {
 				w.stats["step_"+s.Op]++
 			}
 		case "interleave":
+			// every second case: the coming submission passes VerifyTx BEFORE this write lands and goes on with DoTx after it
+			if k%2 == 1 {
+				for _, nx := range beh[i+1:] {
+					if nx.Str("op") == "submit" {
+						c.prepareEarly(nx)
+						w.stats["early_verified_submissions"]++
+						break
+					}
+				}
+			}
 			if err := c.interleave(op.Int("n")); err != nil {
 				return err
 			}
